@@ -8,12 +8,12 @@ namespace WowSrp
 
 /-- C17: HMAC(salt, files in argument order), then H(seed | checksum) -/
 theorem C17_source_layout :
-    Gen.layoutIntegrityGeneric = [["key:checksum_salt", "all_files"]] ∧
-    Gen.layoutIntegrityMac = [["key:checksum_salt", "world_of_warcraft", "info_plist", "objects_xib", "wow_icns", "pkg_info"]] ∧
-    Gen.layoutIntegrityChecksum = [["key:seed", "wow_exe", "fmod_dll", "ijl15_dll", "dbghelp_dll", "unicows_dll"]] ∧
-    Gen.layoutIntegrityFinalise = [["seed", "checksum"]] := by decide
+    Gen.layoutIntegrityGeneric = [["key:checksum_salt", "all_files"], ["ctors:Hmac::<Sha1>::new_from_slice", "methods:finalize_fixed,update", "control:", "rebound:", "tail:finalise(client_public_key,&checksum)"]] ∧
+    Gen.layoutIntegrityMac = [["key:checksum_salt", "world_of_warcraft", "info_plist", "objects_xib", "wow_icns", "pkg_info"], ["ctors:Hmac::<Sha1>::new_from_slice", "methods:finalize_fixed,update,update,update,update,update", "control:", "rebound:", "tail:finalise(client_public_key,&checksum)"]] ∧
+    Gen.layoutIntegrityChecksum = [["key:seed", "wow_exe", "fmod_dll", "ijl15_dll", "dbghelp_dll", "unicows_dll"], ["ctors:Hmac::<Sha1>::new_from_slice", "methods:finalize_fixed,update,update,update,update,update", "control:", "rebound:", "tail:hmac.finalize_fixed().into()"]] ∧
+    Gen.layoutIntegrityFinalise = [["seed", "checksum"], ["ctors:Sha1::new", "methods:chain_update,chain_update,finalize_fixed", "control:", "rebound:", "tail:{Sha1::new().chain_update(seed).chain_update(checksum).finalize_fixed().into()"]] := by decide +kernel
 
 /-- C17: integrity.rs keeps no state between calls -/
-theorem C17_source_no_hidden_state : Gen.integrityModuleHasNoSharedState = true := by decide
+theorem C17_source_no_hidden_state : Gen.integrityModuleHasNoSharedState = true := by decide +kernel
 
 end WowSrp
